@@ -151,7 +151,9 @@ static void runRational(Rng& g, int len)
       std::vector<std::vector<Rational>> M(n, std::vector<Rational>(n));
       // random dense-ish rational matrix; nonsingularity is decided by TLC (exact determinant)
       for(int j = 0; j < n; j++) for(int i = 0; i < n; i++) M[j][i] = g.R(0, 99) < 55 ? randRat(g, bits) : Rational(0);
-      int how = g.R(0, 5);
+      int how = g.R(0, 7);
+      // small integer entries: intermediate results of the solves cancel exactly
+      if(how >= 6) for(int j = 0; j < n; j++) for(int i = 0; i < n; i++) M[j][i] = g.R(0, 99) < 60 ? Rational(g.R(-2, 2)) : Rational(0);
       if(how == 0 && n > 1) M[g.R(0, n - 1)] = M[0];                                               // duplicate (or same) column
       if(how == 1) for(auto& v : M[g.R(0, n - 1)]) v = 0;                                           // zero column
       if(how == 2 && n > 2) { int a = g.R(0, n - 1); for(int i = 0; i < n; i++) M[a][i] = M[(a + 1) % n][i] * Rational(1) / Rational(3) - M[(a + 2) % n][i]; }
@@ -165,7 +167,7 @@ static void runRational(Rng& g, int len)
       if(st != 0) continue;
       for(int t = 0; t < 4; t++)
       {
-         VectorRational b(n); bool sp = g.coin(); for(int i = 0; i < n; i++) b[i] = (sp && g.coin(2, 3)) ? Rational(0) : randRat(g, 8);
+         VectorRational b(n); bool sp = g.coin(); for(int i = 0; i < n; i++) b[i] = (sp && g.coin(2, 3)) ? Rational(0) : (how >= 6 ? Rational(g.R(-2, 2)) : randRat(g, 8));
          DSVectorRational bs(n); for(int i = 0; i < n; i++) if(b[i] != 0) bs.add(i, b[i]);
          auto vj = [&](const VectorRational& v) { return jarr(v.dim(), [&](int i) { return jq(qs(v[i])); }); };
          auto sj = [&](const SSVectorRational& v) { return jarr(v.dim(), [&](int i) { return jq(qs(v[i])); }); };
